@@ -208,6 +208,7 @@ def run_proc_odd(spec, res):
 
 def run_proc(spec, res):
     run_proc_odd(spec, res)
+    run_proc_diskcache(spec, res)
     from .. import procpool as pp
     be = spec['backend']
     rng = rng_for(spec['seed'], PROPERTY, spec['name'])
@@ -272,6 +273,42 @@ def run_proc(spec, res):
             res.violation('not-evaluated-exactly-once', case, {'starts': starts}, sig=sig)
         elif r['len'] != n:
             res.violation('len-differs', case, {'len': r['len']}, sig=sig)
+
+
+def run_proc_diskcache(spec, res):
+    """A disk cache below a process-pool prefetch ("works with all backends
+    for prefetching"): both epochs deliver the pipeline's examples, the second
+    one without computing anything again, and the directory is there as long
+    as the dataset is."""
+    from .. import procpool as pp
+    be = spec['backend']
+    n = 7
+    sc = {'entry': 'pft', 'n': n, 'b': 3, 'w': 2, 'backend': be, 'delays': [0.0, 0.01],
+          'diskcache': True}
+    r = pp.run_case(sc, timeout=90)
+    case = {'scenario': sc}
+    sig = {'entry': 'diskcache+pft', 'backend': be, 'harness': 'process-pool'}
+    res.case(('proc-diskcache', be), True)
+    if r.get('timeout'):
+        res.violation('iteration-never-completes', case, None, sig=sig)
+        return
+    if r.get('crash'):
+        res.inconclusive_because(f'process-pool case crashed: {str(r)[:300]}')
+        return
+    res.count('process_pool_executions')
+    res.count('process_pool_diskcache_executions')
+    want = [('f', i) for i in range(n)]
+    for name in ('first', 'second'):
+        o = r[name]
+        if o['outcome'] != 'exhausted' or pp.delivered(o) != want:
+            res.violation('delivered-sequence-differs', case, {name: o}, sig=sig)
+            return
+    starts = [i for w_, i, _, _ in r['records'] if w_ == 'start']
+    if sorted(starts) != list(range(n)):
+        res.violation('not-evaluated-exactly-once', case, {'starts': sorted(starts)}, sig=sig)
+    elif not r['dir_while_alive'] or r['dir_after_release']:
+        res.violation('cache-directory-lifetime', case,
+                      {k: r[k] for k in ('dir_while_alive', 'dir_after_release')}, sig=sig)
 
 
 def run_pipe(spec, res):
